@@ -17,6 +17,7 @@
    `now` is the current date (year, month, day): the only use the code makes of the clock for absolute texts. *)
 From LR Require Import lib.Base model.GoTime model.Regex model.DateFmt model.DateOk model.LqlTime gen.DateTables.
 From LR Require Import gen.Consts.
+From LR Require Import proofs.RegexAbsP proofs.C20FirstP.
 From LR Require Import proofs.GoTimeP proofs.RegexP proofs.DateFmtP proofs.LqlTimeP proofs.C20TablesP model.LineParse proofs.LineParseP.
 From Coq Require Import Strings.String.
 Open Scope Z_scope.
@@ -78,6 +79,53 @@ Theorem C20_first_match_partial : forall formats, (forall f, In f formats -> In 
 Proof. exact first_match_partial. Qed.
 Print Assumptions C20_first_match_partial.
 
+(* ---- the text on its own (nothing behind it): which earlier formats can claim it at all? ----
+   `known_claims` / `lql_claims` (proofs/C20FirstP.v) hold, for every format k of the regenerated lists, the earlier formats
+   whose regexp MAY match somewhere in SOME text format k writes -- an abstract interpretation of the regexp matcher over
+   the shapes of the texts (per token the values grouped by length, per position the bytes that occur), sound for every
+   civil time (RegexAbsP.a_find_sound, shapes_sound), evaluated by vm_compute. The pairs as they are now: digit-width
+   twins (D/DD, M/MM, h/hh, _D/DD: the text with two digits is also the twin's text) and `MM.DD.YY`, whose unescaped dots
+   match the colons of a time of day (time.Parse then refuses the text: no instance of a wrong instant is known; K and
+   the oracle sample every pair on every run). *)
+Theorem C20_claim_pairs :
+  pairs_of known_claims =
+  [(7, [6]); (13, [12]); (16, [15]); (17, [15; 16]); (18, [15; 16; 17]); (20, [19]); (23, [22]); (26, [25]); (27, [25; 26]);
+   (29, [28]); (31, [30]); (34, [33]); (55, [54]); (56, [54; 55]); (57, [54]); (58, [54; 57])]%nat /\
+  pairs_of lql_claims =
+  [(7, [6]); (13, [12]); (16, [15]); (17, [15; 16]); (18, [15; 16; 17]); (20, [19]); (23, [22]); (26, [25]); (27, [25; 26]);
+   (29, [28]); (31, [30]); (34, [33]); (55, [54]); (56, [54; 55]); (57, [54]); (58, [54; 57]); (59, [54]); (60, [54]);
+   (62, [54]); (63, [54]); (65, [54]); (66, [54])]%nat.
+Proof. split; [exact known_pairs|exact lql_pairs]. Qed.
+Print Assumptions C20_claim_pairs.
+
+(* a format with no pair in the table (43 of the collector's 59, 46 of the 68 LQL formats): its text, on its own, is parsed
+   by it, to the instant it denotes -- for every civil time, with NO hypothesis about the other formats of the list *)
+Theorem C20_first_match_own : forall k f, nth_error known_formats k = Some f -> nth_error known_claims k = Some [] ->
+  forall now c, civil_ok (the_tokens f) c ->
+  parse_all now collector_list (render_toks (the_tokens f) c) = Some (k, denotes now (the_tokens f) c).
+Proof. intros k f Hk Hc. exact (first_match_own_clean known_formats known_claims known_sub known_claims_ok k f Hk Hc). Qed.
+Print Assumptions C20_first_match_own.
+
+(* every format: the hypothesis about earlier formats shrinks to the pairs of the table -- each listed earlier format does
+   not parse the text or reads the same instant -- and then the list answers with the denoted instant *)
+Theorem C20_first_match_own_partial : forall k f cl, nth_error known_formats k = Some f -> nth_error known_claims k = Some cl ->
+  forall now c, civil_ok (the_tokens f) c ->
+  let text := render_toks (the_tokens f) c in
+  (forall j cj, In j cl -> nth_error collector_list j = Some (Some cj) ->
+     parse_one now cj text = None \/ parse_one now cj text = Some (denotes now (the_tokens f) c)) ->
+  exists j, (j <= k)%nat /\ parse_all now collector_list text = Some (j, denotes now (the_tokens f) c).
+Proof. intros k f cl Hk Hc. exact (first_match_own known_formats known_claims known_sub known_claims_ok k f cl Hk Hc). Qed.
+Print Assumptions C20_first_match_own_partial.
+
+(* the same for the LQL list, as an absolute literal (blanks around it allowed): neither the earlier-format hypothesis nor
+   the "not relative, not a constant" hypotheses of C20_lql_abs_partial are left (every text of an LQL format starts
+   with a byte other than '-' and holds a byte that is no letter: lql_literals_safe, decided on the shapes) *)
+Theorem C20_lql_abs_own : forall k f, nth_error lql_formats k = Some f -> nth_error lql_claims k = Some [] ->
+  forall now c lit, civil_ok (the_tokens f) c -> trim_sp lit = render_toks (the_tokens f) c ->
+  lql_parse now lql_list lit = LAbs (nanos (denotes now (the_tokens f) c)).
+Proof. exact lql_abs_own_clean. Qed.
+Print Assumptions C20_lql_abs_own.
+
 (* ---- LQL literals ----
    Full statement: an absolute literal written in the k-th LQL format is the Unix nanoseconds of the instant it denotes.
    [lower] = the format list sees the lower-cased literal (the code before the fix of parseLqlDateTime); the code as it
@@ -124,6 +172,39 @@ Proof.
   intros m sc m' sc' mult H1 H2 H3 H4. split; [apply rel_nonneg; assumption|apply rel_monotone; assumption].
 Qed.
 Print Assumptions C20_relative_monotone.
+
+(* ---- named constants: minute / hour / day / week (any case, blanks around) ----
+   the literal is dispatched to the constant before the format list sees it; the instant is not later than now and less
+   than one period back *)
+Theorem C20_constant_literal : forall now fs k n, nth_error const_names k = Some n ->
+  lql_parse now fs (B n) = LConst k.
+Proof. intros now fs k n H. destruct k as [|[|[|[|k]]]]; cbn in H; try discriminate; try (destruct k; discriminate); injection H as <-; reflexivity. Qed.
+Print Assumptions C20_constant_literal.
+
+Theorem C20_constant_bounds : forall k t, const_instant k t <= t < const_instant k t + const_period k.
+Proof. exact const_bounds. Qed.
+Print Assumptions C20_constant_bounds.
+
+(* hour, day and week are the start of the current hour / day / week (a Sunday), to the nanosecond, and monotone in now *)
+Theorem C20_constant_boundary : forall k t t', (1 <= k)%nat ->
+  const_instant k t mod (if Nat.eqb k 1 then 3600000000000 else 86400000000000) = 0 /\
+  weekday_of_days (const_instant 3 t / 86400000000000) = 0 /\
+  (t <= t' -> const_instant k t <= const_instant k t').
+Proof. intros k t t' Hk. split; [apply const_aligned; exact Hk|split; [apply const_week_sunday|apply const_mono; exact Hk]]. Qed.
+Print Assumptions C20_constant_boundary.
+
+(* `minute` is not the start of the minute: only the seconds of now are taken off, its nanoseconds stay
+   (now.Add(-s * time.Second)), so the instant even goes back while now advances: 10.9 s -> 0.9 s, 11.1 s -> 0.1 s *)
+Theorem C20_constant_minute_keeps_nanoseconds :
+  (forall t, const_instant 0 t mod 1000000000 = t mod 1000000000) /\
+  exists t t', t <= t' /\ const_instant 0 t' < const_instant 0 t.
+Proof.
+  split; [|exact const_minute_not_monotone].
+  intros t. unfold const_instant. cbv zeta.
+  replace (t - t / 1000000000 mod 60 * 1000000000) with (t + (- (t / 1000000000 mod 60)) * 1000000000) by ring.
+  apply Z_mod_plus_full.
+Qed.
+Print Assumptions C20_constant_minute_keeps_nanoseconds.
 
 (* ---- at the start of a log line read by the collector (model/LineParse.v: lineParser.parse) ----
    The line parser remembers the format that dated the last line and tries it first; otherwise, in state 'parsing', it
@@ -196,6 +277,13 @@ Proof. exact civil_ok_sat. Qed.
 
 Example C20_self_nonvacuous : In f_iso all_formats.
 Proof. apply in_by_eqb; vm_compute; reflexivity. Qed.
+
+(* how many formats C20_first_match_own / C20_lql_abs_own cover, and one of them *)
+Example C20_own_nonvacuous :
+  List.length (filter (fun cl => match cl with [] => true | _ => false end) known_claims) = 43%nat /\
+  List.length (filter (fun cl => match cl with [] => true | _ => false end) lql_claims) = 46%nat /\
+  nth_error known_formats 49 = Some (B "YYYY-MM-DD HH:mm:ss") /\ nth_error known_claims 49 = Some [].
+Proof. repeat split; vm_compute; reflexivity. Qed.
 
 (* the line parser's thresholds are the ones line_parser.go has now (coq/gen/Consts.v is regenerated on every run) *)
 Example C20_constants : max_fail = go_lineParserMaxFailCnt /\ lp_max_skip lp_init = go_lineParserMaxSkipCnt.
